@@ -21,7 +21,7 @@ DirectPart        small direct tests (harness/evt/anysched.cpp): any_scheduler /
 import os, random, subprocess, time
 from . import vlib, evt
 
-CFGS = ["dflt", "small", "throw", "al64", "tiny", "unique"]
+CFGS = ["dflt", "small", "throw", "al64", "tiny", "wide", "unique"]
 CLS = ["sn", "st", "lg", "oa"]
 HERE = os.path.join(vlib.VERIF, "harness", "evt")
 
@@ -322,12 +322,17 @@ class WrapInsertPart:
                 distinct.add(x.split(" | ", 1)[-1] + "#" + lw.split("|")[1])
         # the model side of the same statement (erase_transparent is a theorem; this checks that the
         # driver really evaluates the wrapped case): a sample of the pairs through `ask calc run`
-        m = 0
-        for lo, lw in list(zip(orig, wrapped))[:300]:
-            if driver.ask("ask calc run | " + lo) != driver.ask("ask calc run | " + lw):
-                m += 1
+        # the harness erases EVERY node with any_sender_of, so original vs wrapped compares n and n+1 layers; comparing the
+        # real run with the calculus (where erase is transparent by definition) closes the gap "all layers wrong alike"
+        for lo, lw, x in zip(orig, wrapped, a):
+            mo = driver.ask("ask calc run | " + lo)
+            if mo != driver.ask("ask calc run | " + lw):
                 verdict.add("wrapinsert: model not transparent", "Calc.deliver differs for an expression with an inserted erase node (contradicts Props.C18.erase_transparent)",
                             dict(stream="wrapinsert", case=lw, original=lo), found_input=True)
+            if x is not None and x != mo:
+                cov["rejected_histories"] += 1
+                verdict.add("wrapinsert: erased expression differs from the model", f"impl: {x}  model: {mo}",
+                            dict(stream="wrapinsert", case=lo, impl=x, model=mo), found_input=True)
         cov["distinct_nontrivial"] += len(distinct)
         cov["wrapinsert_wrapped_node_histogram"] = dict(sorted(where.items()))
         if wrapped and b[0] is not None:
